@@ -694,6 +694,10 @@ impl Duration {
         provider: &impl TimeZoneProvider,
         // Review question what is the return type of duration.prototye.total?
     ) -> TemporalResult<FiniteF64> {
+        // NOTE: "auto" is not a valid unit for `total`.
+        if unit == Unit::Auto {
+            return Err(TemporalError::range().with_message("unit cannot be auto."));
+        }
         match relative_to {
             // 11. If zonedRelativeTo is not undefined, then
             Some(RelativeTo::ZonedDateTime(zoned_datetime)) => {
